@@ -18,13 +18,14 @@ func ParseTo(s string) (*To, error) {
 		addrSpec: nil,
 		params:   make([]KeyValue, 0)}
 
-	laquot_pos := strings.Index(s, "<")
+	laquot_pos := indexOfLAQuot(s)
 	raquot_pos := -1
 	if laquot_pos != -1 {
-		raquot_pos = strings.Index(s, ">")
-		if raquot_pos == -1 || raquot_pos < laquot_pos {
+		raquot_pos = strings.Index(s[laquot_pos:], ">")
+		if raquot_pos == -1 {
 			return nil, errors.New("malformatted header To")
 		}
+		raquot_pos += laquot_pos
 	}
 
 	params := ""
